@@ -390,6 +390,22 @@ func checkB5(c *Ctx, pr *prioRoles, strict bool) {
 	if !guarded {
 		problems = append(problems, "the subtraction strategic - actual is not protected by actual <= strategic (unsigned underflow yields a huge allotment)")
 	}
+	if strict {
+		for _, e := range InstrDomEdges(assign) {
+			if !blockInLoop(e.From) {
+				continue
+			}
+			iff := e.From.Instrs[len(e.From.Instrs)-1].(*ssa.If)
+			cm := p.NormCmp(iff.Cond, e.Succ == 0)
+			if cm != nil {
+				l, r := deepStrip(cm.L), deepStrip(cm.R)
+				if (isIdx(l, "actual") && isIdx(r, "strategic")) || strings.Contains(cm.String(), "len(") {
+					continue
+				}
+			}
+			problems = append(problems, "the top-up skips priorities under "+p.condSymOnEdge(e)+": the first-phase allotment is then not the validated strategic distribution")
+		}
+	}
 	if strict && !rejectsOnlyWhenAbove {
 		problems = append(problems, "the top-up is rejected already when actual == strategic: a priority sitting exactly on its share is sent down the base path, which can push another priority above its share")
 	}
